@@ -1,3 +1,120 @@
-/-! # C01 — property theorems (stub: nothing stated yet) -/
+import SR.Proofs.Checker.Once
+import SR.Checker.Sched
+import SR.Checker.Graph
+/-!
+# C01 — exhaustive checkers evaluate exactly the reachable in-boundary state space
+
+Property theorems only.  Model: `SR/Checker/Machine.lean` (one machine for bfs.rs, dfs.rs, on_demand.rs and
+any number of worker threads; every schedule / queue discipline / interleaving is a `List Choice`), helper
+invariants in `SR/Proofs/Checker/{Sound,Complete,Once}.lean`.
+
+`run P cs` is the machine state after the choices `cs`; `Quiescent` = nothing pending and nobody working
+(`join` has returned); `early = false` = no job was ever dropped unexpanded (no depth limit hit, not everything
+discovered, no stop).  `visitedStates` = last states of the paths shown to the visitor = the evaluated states;
+`gen.length` = `unique_state_count`; `stateCount` = `state_count`.
+The single-threaded executables are schedulers over the same machine (`SR/Checker/Sched.lean`), so each
+theorem applies to them verbatim (`C01_*_single`).
+-/
 namespace SR.C01
+open SR SR.Checker
+
+variable {σ κ α : Type} [DecidableEq κ] (P : Params σ κ α)
+
+/-- The visitor is only ever shown real in-boundary paths (start in an initial state, follow model
+    transitions, stay inside the boundary) — for every schedule, stop reason and race. -/
+theorem C01_sound (cs : List Choice) : ∀ p ∈ (run P cs).visits, P.M.IsPath p :=
+  (sinv_run (P := P) cs).vis
+
+/-- Every evaluated state is the end of the path shown for it, and is reachable. -/
+theorem C01_evaluated_reachable (cs : List Choice) :
+    ∀ u ∈ visitedStates (run P cs), ∃ p ∈ (run P cs).visits, p.getLast? = some u ∧ P.M.IsPath p ∧ P.M.Reach u := by
+  intro u hu
+  simp only [visitedStates, List.mem_filterMap] at hu
+  obtain ⟨p, hp, hl⟩ := hu
+  have hpath := C01_sound P cs p hp
+  exact ⟨p, hp, hl, hpath, Sys.reach_last_of_isPath hpath hl⟩
+
+/-- **Exactness.**  When a check finishes (`Quiescent`) without any early-exit condition, and the state
+    identity is injective on the reachable states (no fingerprint collision), then
+    (1) the evaluated states are exactly the reachable in-boundary states, and
+    (2) the generated keys are duplicate-free and are exactly the keys of the reachable states, so
+        `unique_state_count` is the size of that set. -/
+theorem C01_exact (hinj : ∀ a b, P.M.Reach a → P.M.Reach b → P.key a = P.key b → a = b)
+    (cs : List Choice) (hq : Quiescent (run P cs)) (he : (run P cs).early = false) :
+    (∀ t, P.M.Reach t ↔ t ∈ visitedStates (run P cs)) ∧
+    (run P cs).gen.Nodup ∧ (∀ k, k ∈ (run P cs).gen ↔ ∃ t, P.M.Reach t ∧ P.key t = k) := by
+  have hcomp := complete_of_quiescent (P := P) Eq hinj (fun _ _ _ h1 h2 => h1.trans h2)
+    (fun a b hab a' ha' => ⟨a', hab ▸ ha', rfl⟩) cs hq he
+  have hn := ninv_run (P := P) cs
+  have hc := cinv_run (P := P) cs he
+  have h1 : ∀ t, P.M.Reach t ↔ t ∈ visitedStates (run P cs) := by
+    intro t
+    constructor
+    · intro ht
+      obtain ⟨u, hu, rfl⟩ := hcomp t ht
+      exact hn.actVis _ (List.mem_append_right _ hu)
+    · intro ht
+      obtain ⟨_, _, _, _, hr⟩ := C01_evaluated_reachable P cs t ht
+      exact hr
+  refine ⟨h1, hn.genNodup, ?_⟩
+  intro k
+  constructor
+  · intro hk
+    obtain ⟨u, hu, rfl⟩ := hc.genJob k hk
+    rw [mem_jobStates, hq.1, hq.2] at hu
+    simp at hu
+    exact ⟨u, hc.doneReach u hu, rfl⟩
+  · rintro ⟨t, ht, rfl⟩
+    exact hn.inGen t (List.mem_append_left _ ((h1 t).1 ht))
+
+/-- Each state is evaluated at most once, given initial states with distinct identities. -/
+theorem C01_once (hnd : (P.M.initB.map P.key).Nodup) (cs : List Choice) :
+    ((visitedStates (run P cs)).map P.key).Nodup ∧ (visitedStates (run P cs)).Nodup := by
+  have h := ((ninv_run (P := P) cs).once hnd)
+  rw [List.map_append] at h
+  have h1 := (List.nodup_append.1 h).1
+  refine ⟨h1, ?_⟩
+  exact List.Pairwise.of_map P.key (fun a b hne hab => hne (congrArg P.key hab)) h1
+
+/-- `unique_state_count ≤ state_count`, always. -/
+theorem C01_counts (cs : List Choice) : (run P cs).gen.length ≤ (run P cs).stateCount :=
+  (ninv_run (P := P) cs).count
+
+/-- Symmetry-reduced form (also the general form): with a key that identifies only `R`-related states, where
+    `R` is transitive and a simulation, every reachable state has an `R`-related evaluated state. -/
+theorem C01_exact_modulo (R : σ → σ → Prop)
+    (hkey : ∀ a b, P.M.Reach a → P.M.Reach b → P.key a = P.key b → R a b)
+    (htrans : ∀ a b c, R a b → R b c → R a c)
+    (hsim : ∀ a b, R a b → ∀ a' ∈ P.M.succB a, ∃ b' ∈ P.M.succB b, R a' b')
+    (cs : List Choice) (hq : Quiescent (run P cs)) (he : (run P cs).early = false) :
+    ∀ t, P.M.Reach t → ∃ u ∈ visitedStates (run P cs), R t u := by
+  intro t ht
+  obtain ⟨u, hu, hr⟩ := complete_of_quiescent (P := P) R hkey htrans hsim cs hq he t ht
+  exact ⟨u, (ninv_run (P := P) cs).actVis _ (List.mem_append_right _ hu), hr⟩
+
+/-! ### The single-threaded executables are instances -/
+
+theorem C01_exact_single (d : Discipline) (fuel : Nat)
+    (hinj : ∀ a b, P.M.Reach a → P.M.Reach b → P.key a = P.key b → a = b)
+    (hq : Quiescent (runSingle P d fuel)) (he : (runSingle P d fuel).early = false) :
+    ∀ t, P.M.Reach t ↔ t ∈ visitedStates (runSingle P d fuel) :=
+  (C01_exact P hinj _ hq he).1
+
+/-! ### Non-vacuity: a concrete 5-state graph with a self-loop, a join, a cycle, an ignored action, two
+initial states and a boundary; the BFS and DFS schedulers reach quiescence without early exit. -/
+
+def exGraph : Graph :=
+  { n := 5, init := [0, 3],
+    adj := [[some 1, some 2], [some 3, none], [some 3, some 2], [some 0, some 4], []],
+    bnd := [true, true, true, true, false] }
+
+def exParams : Params Nat Nat Nat :=
+  { M := exGraph.toSys, props := [{ exp := .always, cond := fun _ => true }], key := id, cfg := {},
+    finishMatches := fun d => d.length == 1 }
+
+example : (runSingle exParams .bfs 200).frontier.length = 0 ∧ (runSingle exParams .bfs 200).active.length = 0 ∧
+    (runSingle exParams .bfs 200).early = false ∧ (runSingle exParams .bfs 200).gen = [0, 3, 1, 2] := by decide
+example : (runSingle exParams .dfs 200).frontier.length = 0 ∧ (runSingle exParams .dfs 200).active.length = 0 ∧
+    (runSingle exParams .dfs 200).early = false ∧ (runSingle exParams .dfs 200).gen.length = 4 := by decide
+
 end SR.C01
